@@ -40,11 +40,15 @@ func vContains(b []byte, c byte) bool {
 func vC06check(m Map, safe bool, indent bool) {
 	var b []byte
 	var err error
+	ind := " "
+	if indent && vChoose(2) == 1 {
+		ind = "" // empty prefix and indent: the compact form, in the requested encoding
+	}
 	switch {
 	case indent && safe:
-		b, err = m.JsonIndent("", " ", true)
+		b, err = m.JsonIndent("", ind, true)
 	case indent:
-		b, err = m.JsonIndent("", " ")
+		b, err = m.JsonIndent("", ind)
 	case safe:
 		b, err = m.Json(true)
 	default:
@@ -65,10 +69,17 @@ func vC06check(m Map, safe bool, indent bool) {
 	enc := json.NewEncoder(&ref)
 	enc.SetEscapeHTML(safe)
 	if indent {
-		enc.SetIndent("", " ")
+		enc.SetIndent("", ind)
 	}
 	vAssert(enc.Encode(map[string]interface{}(m)) == nil, "json: encoding/json encodes the Map")
 	want := ref.Bytes()
+	if indent && safe {
+		// the safe indented form is json.MarshalIndent (which, unlike an Encoder, also
+		// breaks lines when prefix and indent are both empty)
+		mi, mierr := json.MarshalIndent(map[string]interface{}(m), "", ind)
+		vAssert(mierr == nil, "json: encoding/json encodes the Map")
+		want = append(mi, '\n')
+	}
 	vAssert(len(want) == len(b)+1 && string(want[:len(b)]) == string(b), "json: the output is byte for byte what encoding/json produces (with <, > and & literal in the default encoding)")
 	if safe {
 		vAssert(!vContains(b, '<') && !vContains(b, '>') && !vContains(b, '&'), "json: the safe encoding never contains <, > or & literally")
